@@ -24,6 +24,7 @@ type Banner struct {
 	Form  string `json:"form"`  // before-own-prompt | inside@N | after-no-prompt | after-own-prompt | after-prompt
 	Kind  string `json:"kind"`  // 2:00 | 1:00 | aborted
 	Chunk string `json:"chunk"` // whole | lines | prompt-delayed
+	HH    bool   `json:"hh,omitempty"` // time printed with a two-digit hour field (00:01:00)
 }
 
 // Park lets the simulator block when line Ord arrives until File is
